@@ -107,7 +107,7 @@ theorem linArgs_needs (r : List Char) (g : Gen) (h : linArgs r = some g) :
           split at h
           · cases h
           · rename_i hp
-            have hp' : nextIs s2 ')' = true := by simpa using hp
+            have hp' : nextIs s2 ')' = true := closeOk_nextIs s2 (by simpa using hp)
             unfold linRange at hr
             split at hr
             · rename_i hcol; exact Or.inl hcol
@@ -148,7 +148,7 @@ theorem facArgs_needs (r : List Char) (g : Gen) (h : facArgs r = some g) :
               split at h
               · cases h
               · rename_i hp
-                have hp' : nextIs s5 ')' = true := by simpa using hp
+                have hp' : nextIs s5 ')' = true := closeOk_nextIs s5 (by simpa using hp)
                 unfold facBase at hfb
                 split at hfb
                 · rename_i hcol; exact Or.inl hcol
@@ -377,6 +377,87 @@ theorem malformedCount_refused (s : List Char) (h : malformedCount s = true) : c
             · rw [h1] at hq; cases hq
             · rw [h2] at hq; cases hq
     · cases h
+
+theorem dropSpace_append_ws (A B : List Char) (h : A.all isSpace = true) : dropSpace (A ++ B) = dropSpace B := by
+  induction A with
+  | nil => rfl
+  | cons x xs ih =>
+    simp only [List.all_cons, Bool.and_eq_true] at h
+    simp only [List.cons_append, dropSpace, h.1, ↓reduceIte]
+    exact ih h.2
+
+theorem reverse_tail_ws (pre tl : List Char) (h : tl.all isSpace = true) :
+    (dropSpace (pre ++ ')' :: tl).reverse).head? = some ')' := by
+  have e : (pre ++ ')' :: tl).reverse = tl.reverse ++ (')' :: pre.reverse) := by simp
+  rw [e, dropSpace_append_ws _ _ (by simpa using h)]
+  simp [dropSpace, isSpace]
+
+/-- **text behind the closing parenthesis is refused** -/
+theorem trailingJunk_refused (s : List Char) (h : trailingJunk s = true) : create s = none := by
+  unfold trailingJunk at h
+  simp only [dropWhile_ws] at h
+  split at h
+  · cases h
+  · rename_i hk
+    have hname : ¬ ((dropSpace s).takeWhile isLetter).isEmpty = true := fun hp => hk (Or.inl hp)
+    have hkind : (keywordKind ((dropSpace s).takeWhile isLetter)).isNone = false := by
+      cases hq : (keywordKind ((dropSpace s).takeWhile isLetter)).isNone with
+      | false => rfl
+      | true => exact absurd (Or.inr hq) hk
+    have hname' : ((dropSpace s).takeWhile isLetter).isEmpty = false := by simpa using hname
+    -- where the text ends if it is accepted
+    have key : ∀ g, create s = some g → ∃ pre tl, s = pre ++ ')' :: tl ∧ tl.all isSpace = true := by
+      intro g hg
+      rw [create_drop s] at hg
+      have hlen : ((dropSpace s).takeWhile isLetter).length ≤ 6 := by
+        rw [← lowerAll_length]
+        cases hq : keywordKind ((dropSpace s).takeWhile isLetter) with
+        | none => rw [hq] at hkind; simp at hkind
+        | some k =>
+          unfold keywordKind at hq
+          simp only [] at hq
+          have hl : lowerAll ((dropSpace s).takeWhile isLetter) = ((dropSpace s).takeWhile isLetter).map IterSpec.toLower := rfl
+          rw [hl]
+          generalize ((dropSpace s).takeWhile isLetter).map IterSpec.toLower = n at hq
+          have conv : ∀ (w : String), String.ofList n = w → n.length = w.toList.length := by
+            intro w hw; rw [← hw]; simp
+          split at hq
+          · rename_i h1; rcases h1 with e | e <;> rw [conv _ e] <;> decide
+          · split at hq
+            · rename_i h1; rw [conv _ h1]; decide
+            · split at hq
+              · rename_i h1; rcases h1 with e | e | e <;> rw [conv _ e] <;> decide
+              · cases hq
+      rw [create_keyword _ hname' hlen] at hg
+      simp only [] at hg
+      have hsuf : ∀ r tl, (')' :: tl) <:+ r → r <:+ s → ∃ pre, s = pre ++ ')' :: tl := by
+        intro r tl a b
+        obtain ⟨p1, e1⟩ := a.trans b
+        exact ⟨p1, e1.symm⟩
+      have hrs : (dropSpace s).dropWhile isLetter <:+ s :=
+        (List.dropWhile_suffix _).trans (dropSpace_suffix s)
+      split at hg
+      · obtain ⟨_, _, tl, a, b⟩ := linArgs_parens _ g hg
+        obtain ⟨pre, e⟩ := hsuf _ tl a hrs
+        exact ⟨pre, tl, e, b⟩
+      · split at hg
+        · obtain ⟨_, _, tl, a, b⟩ := facArgs_parens _ g hg
+          obtain ⟨pre, e⟩ := hsuf _ tl a hrs
+          exact ⟨pre, tl, e, b⟩
+        · split at hg
+          · obtain ⟨_, _, tl, a, b⟩ := rangeArgs_parens _ g hg
+            obtain ⟨pre, e⟩ := hsuf _ tl a hrs
+            exact ⟨pre, tl, e, b⟩
+          · cases hg
+    cases hc : create s with
+    | none => rfl
+    | some g =>
+      exfalso
+      obtain ⟨pre, tl, e, htl⟩ := key g hc
+      have := reverse_tail_ws pre tl htl
+      rw [← e] at this
+      rw [this] at h
+      simp at h
 
 /-- **recognised descriptions without a sequence are refused**: zero steps, an empty or descending range, a
     step that is not positive -/
